@@ -750,6 +750,7 @@ class Explorer:
         self.inconclusive_reasons = []
         self.samples = []
         self.exhausted = False
+        self.bag = {}  # persists across paths: cross-path (existential) bookkeeping by harnesses
         # per path
         self.prefix = []
         self.decisions = []
@@ -1135,6 +1136,7 @@ class Concrete:
         self.checks_reached = 0
         self.cover_counts = {}
         self.notes = {}
+        self.bag = {}
 
     def _get(self, name, default):
         self.used.add(name)
